@@ -26,7 +26,7 @@ LEVEL_NOTE = (
     "Trusted: the logging eval callbacks (vlib/instrument.py). Bounds: <= 4 blocks, N <= 7, <= 3 parameters, "
     "requests of total order <= 4, <= 6 requests per schedule."
 )
-TECHNIQUE = "property-based testing (Hypothesis) with call-log invariants and a poisoned-input metamorphic relation"
+TECHNIQUE = "property-based testing (Hypothesis) with call-log invariants and a poisoned-input metamorphic relation + coverage-guided fuzzing stage (atheris/libFuzzer driving the same strategy and oracle, thorough tier only)"
 BUDGET = {"quick": 1600, "thorough": 40000}
 FUZZ = {"quick": 0, "thorough": 48000}  # executions of the coverage-guided stage (vlib/fuzz.py)
 SHRINK_SECONDS = {"quick": 30, "thorough": 150}
